@@ -106,6 +106,14 @@ def hashStep (I : Inst) (s : HSt I) (toks : List String) : HSt I × String :=
     match r? with
     | none => (s, "out-of-fuel")
     | some r => ({ s with m := r.1 }, showRet I.showD r.1 r.2 s.sync)
+  | ["T", c, d] =>
+    -- C15 correspondence at large totals: the harness adds `d` (a whole number of blocks) to the running
+    -- total of an idle context; every later padding must use the new total (hash_pad arithmetic)
+    let c := c.toNat!
+    let x := s.m.ctxs c
+    if x.processing || x.complete then (s, "bad-op") else
+    let x' := { x with total := (x.total + d.toNat!) % 2^64 }
+    ({ s with m := setCtx s.m c x' }, s!"ok tot={x'.total}")
   | ["SB", c, fl, len, seed, off] =>
     -- C15: a segment of up to 2^32-1 bytes taken cyclically from a 2 MiB pattern at offset `off`,
     -- submitted to an idle context of an otherwise empty manager and flushed out.  By theorems C01
